@@ -23,5 +23,6 @@ def check(repo, rep, tier):
     g, gp = cm.g, cm.gp
     lc = rep.run(rf.rule_raising_recognisers, em, rep, 'C19.B6a', g)
     rep.run(rf.rule_cli_exit, em, rep, 'C19.B6', lc or [])
+    rep.run(rf.rule_main_compiles_every_source, em, rep, 'C19.B8')
     from .. import rules_extra as rx
     rep.run(rx.rule_stages_per_call, cm, em, rep, 'C19.B7')
